@@ -8,7 +8,7 @@ import numqi.sim.clifford as cl
 import numqi.gate._pauli as gp
 from vf import bv as B, sched
 from vf.symarray import SymArray, shimmed
-from vf.prover import verify_contract, ob, solve, jsonable, native_check, model_value
+from vf.prover import verify_contract, ob, solve, jsonable, native_check, model_value, from_repo
 from vf.loopcut import extract_loop
 from . import spec_f2 as S, spec_pauli as SP
 
@@ -756,9 +756,45 @@ def job_clifford_group(tier, rng, n):
                detail='' if bad is None else 'converted (r,S) does not reproduce the conjugation action')]
 
 
+def job_clifford_words(tier, rng, n, count):
+    """clifford_array_to_F2 on random words in {H_i, S_i, CX_ij} (n = 2, 3): images of the generators with several Y factors occur, unlike for the basic gates"""
+    gens = [_embed1(_G1['H'], i, n) for i in range(n)] + [_embed1(_G1['S'], i, n) for i in range(n)] + [_embedc(_G1['X'], i, j, n) for i in range(n) for j in range(n) if i != j]
+    sub = [f for f in SP.all_f2(n) if f[0] == 0 and f[1] == 0]
+    bad = None; cnt = 0; multi_y = 0
+    for t in range(count):
+        V = np.eye(2 ** n, dtype=complex)
+        for k in rng.integers(0, len(gens), size=int(rng.integers(1, 25))):
+            V = gens[int(k)] @ V
+        try:
+            r, Sm = cl.clifford_array_to_F2(V)
+            ok = bool(z3.is_true(z3.simplify(S.is_symplectic_cols(S.rows(Sm)))))
+            for f in sub:
+                got = cl.apply_clifford_on_pauli(f, r, Sm)
+                if np.abs(SP.dense(got) - V @ SP.dense(f) @ V.conj().T).max() > 1e-6:
+                    ok = False
+            Sa = np.asarray(Sm)
+            multi_y += int(any(int((Sa[:n, j] & Sa[n:, j]).sum()) >= 2 for j in range(2 * n)))
+        except Exception as ex:
+            if not from_repo(ex):
+                raise
+            ok = False
+        cnt += 1
+        if not ok and bad is None:
+            bad = dict(n=n, unitary=np.round(V, 6).tolist())
+    out = [ob(f'{PROP}.clifford_array_to_F2.random_words[n={n},count={count}]', 'pass' if bad is None else 'refuted', tier='B', backend='native',
+              functions=['numqi.sim.clifford:clifford_array_to_F2', 'numqi.gate._pauli:PauliOperator.from_full_matrix'],
+              evaluations=cnt, distinct_nontrivial=multi_y, witness=jsonable(bad), native=dict(confirmed=bad is not None), generator_images_with_two_or_more_Y=multi_y,
+              detail='' if bad is None else 'converted (r,S) does not reproduce the conjugation action')]
+    if multi_y == 0:
+        out.append(ob(f'{PROP}.clifford_array_to_F2.random_words.reachability[n={n}]', 'undecided', tier='B', backend='native', detail='no sampled Clifford maps a generator to a Pauli with two or more Y factors: the phase-carry case was not exercised'))
+    return out
+
+
 def jobs(tier):
     sh = SHAPES[tier]
     J = []
+    for n, cnt_ in ((2, 150), (3, 40)) if tier == 'quick' else ((2, 400), (3, 300)):
+        J.append(('job_clifford_words', dict(n=n, count=cnt_)))
     for n in [1, 2, 3]:
         J.append(('job_contract', dict(cname='apply_clifford_on_pauli', shape=n)))
         J.append(('job_c08_matmul', dict(n=n)))
